@@ -680,6 +680,14 @@ func (app *App) methodInt(s string) int {
 	return slices.Index(app.config.RequestMethods, s)
 }
 
+// removeNewLines replaces CR and LF, which would end a header line, by spaces.
+func removeNewLines(s string) string {
+	if strings.IndexByte(s, '\r') == -1 && strings.IndexByte(s, '\n') == -1 {
+		return s
+	}
+	return strings.NewReplacer("\r", " ", "\n", " ").Replace(s)
+}
+
 func (app *App) method(methodInt int) string {
 	if methodInt < 0 || methodInt >= len(app.config.RequestMethods) {
 		return "" // the request method is not one of the configured methods
